@@ -93,3 +93,79 @@ let main () =
     incr i
   done with End_of_file -> ());
   close_in ic
+
+
+(* ---------------------------------------------------------------- xfront2sx: XFront.front as the READER of X text
+   hvmain xfront2sx <file.x>: the XAst.program the model of the real lexer+parser builds from the file's bytes, printed in
+   the machine format ocaml/xdrv.ml reads (= tools/xcommon.py to_sx), or one line "reject line l:c: message". *)
+let opname (o : XAst.binop) = match o with
+  | XAst.Plus -> "plus" | XAst.Minus -> "minus" | XAst.Or -> "or" | XAst.And -> "and" | XAst.Eq -> "eq" | XAst.Ne -> "ne"
+  | XAst.Ls -> "ls" | XAst.Le -> "le" | XAst.Gr -> "gr" | XAst.Ge -> "ge"
+
+let rec sx_expr b (e : XAst.expr) =
+  let add = Buffer.add_string b in
+  match e with
+  | XAst.ENum n -> add (P.sprintf "(num %d)" (iz n))
+  | XAst.EBool true -> add "(true)"
+  | XAst.EBool false -> add "(false)"
+  | XAst.EStr l -> add "(str"; SL.iter (fun z -> add (P.sprintf " %d" (iz z))) l; add ")"
+  | XAst.EVar x -> add (P.sprintf "(var %s)" (os x))
+  | XAst.ESub (a, i) -> add (P.sprintf "(sub %s " (os a)); sx_expr b i; add ")"
+  | XAst.ECall (f, args) -> add (P.sprintf "(call %s" (os f)); SL.iter (fun a -> add " "; sx_expr b a) args; add ")"
+  | XAst.ESys (n, args) -> add (P.sprintf "(sys %d" (iz n)); SL.iter (fun a -> add " "; sx_expr b a) args; add ")"
+  | XAst.EUn (XAst.Neg, e) -> add "(neg "; sx_expr b e; add ")"
+  | XAst.EUn (XAst.Not, e) -> add "(not "; sx_expr b e; add ")"
+  | XAst.EBin (o, l, r) -> add (P.sprintf "(bin %s " (opname o)); sx_expr b l; add " "; sx_expr b r; add ")"
+
+let rec sx_stmt b (s : XAst.stmt) =
+  let add = Buffer.add_string b in
+  match s with
+  | XAst.SSkip -> add "(skip)"
+  | XAst.SStop -> add "(stop)"
+  | XAst.SReturn e -> add "(return "; sx_expr b e; add ")"
+  | XAst.SIf (c, t, e) -> add "(if "; sx_expr b c; add " "; sx_stmt b t; add " "; sx_stmt b e; add ")"
+  | XAst.SWhile (c, s) -> add "(while "; sx_expr b c; add " "; sx_stmt b s; add ")"
+  | XAst.SSeq ss -> add "(seq"; SL.iter (fun s -> add " "; sx_stmt b s) ss; add ")"
+  | XAst.SAssign (x, e) -> add (P.sprintf "(assign %s " (os x)); sx_expr b e; add ")"
+  | XAst.SAssignSub (a, i, e) -> add (P.sprintf "(assignsub %s " (os a)); sx_expr b i; add " "; sx_expr b e; add ")"
+  | XAst.SCall (f, args) -> add (P.sprintf "(call %s" (os f)); SL.iter (fun a -> add " "; sx_expr b a) args; add ")"
+  | XAst.SSys (n, args) -> add (P.sprintf "(sys %d" (iz n)); SL.iter (fun a -> add " "; sx_expr b a) args; add ")"
+
+let sx_decl b (d : XAst.decl) =
+  let add = Buffer.add_string b in
+  match d with
+  | XAst.DVal (x, e) -> add (P.sprintf "(val %s " (os x)); sx_expr b e; add ")"
+  | XAst.DVar x -> add (P.sprintf "(var %s)" (os x))
+  | XAst.DArray (x, e) -> add (P.sprintf "(array %s " (os x)); sx_expr b e; add ")"
+
+let sx_formal b (f : XAst.formal) =
+  Buffer.add_string b (match f with
+    | XAst.FVal x -> P.sprintf "(val %s)" (os x) | XAst.FArray x -> P.sprintf "(array %s)" (os x)
+    | XAst.FProc x -> P.sprintf "(proc %s)" (os x) | XAst.FFunc x -> P.sprintf "(func %s)" (os x))
+
+let sx_program (p : XAst.program) : string =
+  let b = Buffer.create 65536 in
+  let add = Buffer.add_string b in
+  add "(program (globals";
+  SL.iter (fun d -> add " "; sx_decl b d) p.XAst.globals;
+  add ") (procs";
+  SL.iter (fun (q : XAst.proc) ->
+    add (P.sprintf "\n (%s %s (formals" (if q.XAst.is_func then "func" else "proc") (os q.XAst.pname));
+    SL.iter (fun f -> add " "; sx_formal b f) q.XAst.formals;
+    add ") (locals";
+    SL.iter (fun d -> add " "; sx_decl b d) q.XAst.locals;
+    add ") "; sx_stmt b q.XAst.body; add ")") p.XAst.procs;
+  add "))\n";
+  Buffer.contents b
+
+let sx_main () =
+  let ic = open_in_bin Sys.argv.(2) in
+  let n = in_channel_length ic in
+  let src = really_input_string ic n in
+  close_in ic;
+  let bytes = SL.init (SS.length src) (fun i -> zi (Char.code (SS.get src i))) in
+  match XFront.front bytes with
+  | XFront.Ok p -> print_string (sx_program p)
+  | XFront.Reject d -> P.printf "reject line %d:%d: %s\n" (iz d.XFront.d_line) (iz d.XFront.d_col) (os (XFront.diag_message d.XFront.d_msg))
+  | XFront.UB w -> P.printf "ub %s\n" (os w)
+  | XFront.OutOfFuel -> P.printf "outoffuel\n"
